@@ -844,3 +844,129 @@ def shrink_case(case, fails, budget=400):
     cur["ops"] = [o for i, o in enumerate(cur["ops"])
                   if not (o["k"] == "nop" and o["alloc"] == 0)]
     return cur
+
+
+# ------------------------------------------------------------------ extracted model (bin/c07_model)
+def ser_val(v):
+    if isinstance(v, list):
+        return "G %d %s" % (len(v), " ".join(ser_val(c) for c in v))
+    if v is None:
+        return "N"
+    return "I %d" % v
+
+
+def ser_aexp(a):
+    if a[0] == "v":
+        return "V %d" % a[1]
+    if a[0] == "par":
+        return "R %d" % a[1]
+    if a[0] == "f":
+        return "F %d %s" % (a[2], ser_aexp(a[1]))
+    return "D " + ser_aexp(a[1])
+
+
+def ser_sop(s):
+    k = s["k"]
+    if k == "w":
+        return "W %s %d" % (ser_aexp(s["a"]), s["z"])
+    if k == "cp":
+        return "C %s %s" % (ser_aexp(s["d"]), ser_aexp(s["s"]))
+    if k == "addr":
+        return "A %s %s" % (ser_aexp(s["p"]), ser_aexp(s["t"]))
+    return "P %d %d %s" % (s["id"], len(s["as"]), " ".join(ser_aexp(a) for a in s["as"]))
+
+
+MODE_CH = {"val": "v", "pval": "v", "ptr": "p", "ref": "r", "arr": "a", "self": "s"}
+
+
+def ser_op(o):
+    k = o["k"]
+    if k in ("w", "cp", "addr", "rd"):
+        return "S " + ser_sop(o)
+    if k == "nop":
+        return "Z %d" % o["alloc"]
+    if k == "decl":
+        return "L " + ser_aexp(o["s"])
+    ps = " ".join("%s %s" % (MODE_CH[p["mode"]], ser_aexp(p["arg"])) for p in o["params"])
+    body = " ".join(ser_sop(s) for s in o["body"])
+    r = o["ret"]
+    if not r:
+        ret = "0"
+    elif r["d"] is None:
+        ret = "1 " + ser_aexp(r["e"])
+    else:
+        ret = "2 %s %s" % (ser_aexp(r["e"]), ser_aexp(r["d"]))
+    return "K %d %s %d %s %s" % (len(o["params"]), ps, len(o["body"]), body, ret)
+
+
+def ser_case(case):
+    h0 = [zero(t) for _, t in VARS]
+    return "H %d %s O %d %s" % (len(h0), " ".join(ser_val(v) for v in h0), len(case["ops"]),
+                                 " ".join(ser_op(o) for o in case["ops"]))
+
+
+def model_run(cases):
+    """[(spec transcript, mech transcript)] from the extracted Coq model; a transcript is a list of int lists,
+    ending with ['ERR'] when the model could not execute some statement"""
+    lines = common.run_model(PROP, "run", [ser_case(c) for c in cases], timeout=900)
+    if len(lines) != 2 * len(cases):
+        raise RuntimeError("c07_model: %d output lines for %d cases" % (len(lines), len(cases)))
+
+    def parse(l, tag):
+        assert l.startswith(tag + " "), l[:40]
+        _, ok, rest = (l.split(" ", 2) + [""])[:3]
+        tr = [[int(x) for x in seg.split()] for seg in rest.split("|") if seg.strip()]
+        if ok != "1":
+            tr.append(["ERR"])
+        return tr
+    return [(parse(lines[2 * i], "S"), parse(lines[2 * i + 1], "M")) for i in range(len(cases))]
+
+
+def norm_shadow(tr):
+    return [(["ERR"] if l and l[0] == "ERR" else l) for l in tr]
+
+
+# ------------------------------------------------------------------ the agreeing fragment
+# Every rule excludes a family of access forms on which the pinned implementation does not behave like the
+# location+path store (genuine defects, crashes, or forms it rejects). (finding id, regex on the form signature
+# "<ctx M|F|S><place G|L>|<role>|<expr>|<style>"). known_findings/C07.json holds one minimal replay per id.
+P_TYPED = r"(P|PS\[\]|par<[a-z]+ P>|par<arr PS>\[\]|\*\([^)]*=>(P|PS\[\])\))"
+AVOID = [
+    # --- struct arrays
+    ("C07-structarray-elem-whole", r"\|(decl|cp[ds]|retd?|recv|addr|argptr)\|(PS|ES)\[\]"),
+    ("C07-structarray-elem-array-member-rejected", r"\|PS\[\]\.arr"),
+    ("C07-structarray-param", r"\|argarr\|(PS|ES)|par<arr (PS|ES)>"),
+    # --- pointers
+    ("C07-pointer-to-member", r"\|(addr|argptr)\|(?!(P|In|int|A3\[\])\|)"),
+    ("C07-arrow-array-member-rejected", r"\*\([^)]*\)\.arr\[\]"),
+    ("C07-arrow-nested-write-rejected", r"\|w\|\*\([^)]*\)\.inner\."),
+    ("C07-deref-whole-struct", r"\|(decl|cp[ds]|argval|recv|retd?)\|\*\("),
+    # --- whole-struct copies
+    ("C07-struct-copy-loses-members", r"\|(decl|cp[ds]|retd?)\|" + P_TYPED + r"\|"),
+    ("C07-array-member-assign-noop", r"\|cp[ds]\|.*arr\|"),
+    ("C07-nested-struct-whole", r"\|(decl|cp[ds]|retd?|argval|recv|addr|argptr)\|.*\.inner\|"),
+    ("C07-callee-param-struct-copy", r"^[FS].\|(cp[ds])\|par<|\|ret\|par<(ref|self|arr)"),
+    # --- references / by-value parameters / self
+    ("C07-ref-array-member-write-lost", r"\|w\|par<ref P>\.arr\[\]"),
+    ("C07-ref-nested-write-rejected", r"\|w\|par<ref P>\.inner\."),
+    ("C07-byval-nested-write-lost", r"\|w\|par<val P>\.inner"),
+    ("C07-method-wipes-members", r"\|recv\|P"),
+    ("C07-self-writethrough-stale", r"^S.\|[^|]*\|(In|P|PS|ES)|^S.\|[^|]*\|\*\("),
+    ("C07-callee-global-nested-write-lost", r"^[FS].\|w\|(P|PS\[\])\.inner"),
+    # --- documented / front-end restrictions (not defects): T& and T[n] arguments must be plain variables,
+    #     a member expression cannot be passed to a struct parameter
+    ("restriction-ref-arg-plain-variable", r"\|argref\|.*[.\[*]"),
+    ("restriction-array-arg-plain-variable", r"\|argarr\|.*[.\[*]"),
+]
+_AVOID_RE = [(fid, re.compile(rx)) for fid, rx in AVOID]
+
+
+def avoid_id(sig):
+    for fid, rx in _AVOID_RE:
+        if rx.search(sig):
+            return fid
+    return None
+
+
+def allow_main(sig):
+    return avoid_id(sig) is None
